@@ -30,9 +30,25 @@ const coreFuel = "600"
 
 // coreRun evaluates src in a new interpreter with a small evaluation budget (generated programs are short; a
 // runaway recursion is cut off early and the case discarded)
-func coreRun(src string) Outcome {
+func coreRun(src string) Outcome { return coreRunIn(src, "") }
+
+func coreRunIn(src, stdin string) Outcome {
 	it := NewInterp()
-	return it.RunIn(object.NewEnclosedEnv(it.base), src, "", 30000)
+	return it.RunIn(object.NewEnclosedEnv(it.base), src, stdin, 30000)
+}
+
+const coreStdin = "in1\nin2\nin3\nin4\nin5\nin6\n"
+
+// coreStdinField: the stdin lines as the Lean driver expects them (x-hex, comma separated)
+func coreStdinField(stdin string) string {
+	if stdin == "" {
+		return "-"
+	}
+	parts := []string{}
+	for _, l := range strings.Split(strings.TrimSuffix(stdin, "\n"), "\n") {
+		parts = append(parts, hx(l))
+	}
+	return strings.Join(parts, ",")
 }
 
 func featTags(f map[string]bool) []string {
@@ -58,8 +74,12 @@ func coreCase(c *Ctx, src string, tags []string, nt bool, oracle string) (Outcom
 	if tf := os.Getenv("VERIF_TRACE"); tf != "" {
 		os.WriteFile(tf, []byte(src), 0o644)
 	}
-	o := coreRun(src)
-	rec := Rec{Case: "CORE - " + coreFuel + " " + toks, Impl: coreOutcome(o), Src: src, NT: nt, Tags: append(tags, "outcome-"+o.Kind), Oracle: oracle}
+	stdin := ""
+	if strings.Contains(src, "<>") {
+		stdin = coreStdin
+	}
+	o := coreRunIn(src, stdin)
+	rec := Rec{Case: "CORE " + coreStdinField(stdin) + " " + coreFuel + " " + toks, Impl: coreOutcome(o), Src: src, NT: nt, Tags: append(tags, "outcome-"+o.Kind), Oracle: oracle}
 	if o.Kind == "err" {
 		rec.Tags = append(rec.Tags, "err-"+o.ErrKind)
 	}
@@ -145,7 +165,7 @@ func genCore(c *Ctx, mode string) {
 			}
 			src := "t := {|v| v.p; v}\nf := {|a, b, c, d, kx: 0, ky: 0, kz: 0| 0}\n" + pr.src + "\n"
 			for k := 0; k < 4; k++ { // several runs: Go map iteration starts at a random offset
-				o := coreRun(src)
+				o := coreRunIn(src, coreStdin)
 				got := strings.Join(strings.Fields(o.Stdout), " ")
 				rec := Rec{Src: src, Impl: got, NT: k == 0, Tags: []string{"order-probe"}}
 				if got != pr.want || o.Kind != "val" {
@@ -172,7 +192,7 @@ func genCore(c *Ctx, mode string) {
 	if c.Thorough() {
 		n *= 10
 	}
-	bias := map[string]byte{"C03": 'F', "C07": 0, "C08": 0, "C14": 'T'}[mode]
+	bias := map[string]byte{"C03": 'F', "C07": 0, "C08": 'E', "C14": 'T'}[mode]
 	for i := 0; i < n; i++ {
 		root, feat := genCoreProgram(c.Rng, 2+c.Rng.Intn(2), bias)
 		tags := append(featTags(feat), "plain")
@@ -194,7 +214,11 @@ func genCore(c *Ctx, mode string) {
 			// reproducibility: the same program again in this process (new interpreter, new map seeds) and, for a sample, in a new process
 			first := coreOutcome(o)
 			for k := 0; k < 2; k++ {
-				again := coreOutcome(coreRun(src))
+				sin := ""
+				if strings.Contains(src, "<>") {
+					sin = coreStdin
+				}
+				again := coreOutcome(coreRunIn(src, sin))
 				if again != first {
 					c.Em.Emit(Rec{Src: src, Impl: again, NT: true, Tags: []string{"rerun"}, Oracle: "a repeated run differs: first " + first + " then " + again})
 				} else {
